@@ -8,7 +8,12 @@ from contracts import specs
 
 def resolve_fn(prog, modname, name):
     m = prog.modules[modname]
-    if name in m.funcs: return m.funcs[name], m
+    if name in m.funcs:
+        wr = prog.wrapped_by(f'{modname}:{name}')
+        if wr:
+            from .ring import Unsupported
+            raise Unsupported(f'{name} is wrapped by decorator(s) {wr}: its body is not what callers reach')
+        return m.funcs[name], m
     if name in m.imports and m.imports[name][0] == 'sym':
         _, mod2, sym = m.imports[name]
         return resolve_fn(prog, mod2, sym)
